@@ -1727,8 +1727,9 @@ namespace jsoncons {
                                 return static_cast<uint64_t>(cast<int64_storage>().value()) < rhs.cast<uint64_storage>().value() ? -1 : 1;
                         case json_storage_kind::float64:
                         {
-                            double r = static_cast<double>(cast<int64_storage>().value()) - rhs.cast<double_storage>().value();
-                            return r == 0.0 ? 0 : (r < 0.0 ? -1 : 1);
+                            const double x = static_cast<double>(cast<int64_storage>().value());
+                            const double y = rhs.cast<double_storage>().value();
+                            return x == y ? 0 : (x < y ? -1 : 1);
                         }
                         case json_storage_kind::const_json_ref:
                             return compare(rhs.cast<const_json_ref_storage>().value());
@@ -1755,8 +1756,9 @@ namespace jsoncons {
                                 return cast<uint64_storage>().value() < static_cast<uint64_t>(rhs.cast<int64_storage>().value()) ? -1 : 1;
                         case json_storage_kind::float64:
                         {
-                            auto r = static_cast<double>(cast<uint64_storage>().value()) - rhs.cast<double_storage>().value();
-                            return r == 0 ? 0 : (r < 0.0 ? -1 : 1);
+                            const double x = static_cast<double>(cast<uint64_storage>().value());
+                            const double y = rhs.cast<double_storage>().value();
+                            return x == y ? 0 : (x < y ? -1 : 1);
                         }
                         case json_storage_kind::const_json_ref:
                             return compare(rhs.cast<const_json_ref_storage>().value());
@@ -1771,18 +1773,21 @@ namespace jsoncons {
                     {
                         case json_storage_kind::int64:
                         {
-                            auto r = cast<double_storage>().value() - static_cast<double>(rhs.cast<int64_storage>().value());
-                            return r == 0 ? 0 : (r < 0.0 ? -1 : 1);
+                            const double x = cast<double_storage>().value();
+                            const double y = static_cast<double>(rhs.cast<int64_storage>().value());
+                            return x == y ? 0 : (x < y ? -1 : 1);
                         }
                         case json_storage_kind::uint64:
                         {
-                            auto r = cast<double_storage>().value() - static_cast<double>(rhs.cast<uint64_storage>().value());
-                            return r == 0 ? 0 : (r < 0.0 ? -1 : 1);
+                            const double x = cast<double_storage>().value();
+                            const double y = static_cast<double>(rhs.cast<uint64_storage>().value());
+                            return x == y ? 0 : (x < y ? -1 : 1);
                         }
                         case json_storage_kind::float64:
                         {
-                            auto r = cast<double_storage>().value() - rhs.cast<double_storage>().value();
-                            return r == 0 ? 0 : (r < 0.0 ? -1 : 1);
+                            const double x = cast<double_storage>().value();
+                            const double y = rhs.cast<double_storage>().value();
+                            return x == y ? 0 : (x < y ? -1 : 1);
                         }
                         case json_storage_kind::const_json_ref:
                             return compare(rhs.cast<const_json_ref_storage>().value());
@@ -1819,18 +1824,21 @@ namespace jsoncons {
                         {
                             case json_storage_kind::int64:
                             {
-                                auto r = val1 - static_cast<double>(rhs.cast<int64_storage>().value());
-                                return r == 0 ? 0 : (r < 0.0 ? -1 : 1);
+                                const double x = val1;
+                                const double y = static_cast<double>(rhs.cast<int64_storage>().value());
+                                return x == y ? 0 : (x < y ? -1 : 1);
                             }
                             case json_storage_kind::uint64:
                             {
-                                auto r = val1 - static_cast<double>(rhs.cast<uint64_storage>().value());
-                                return r == 0 ? 0 : (r < 0.0 ? -1 : 1);
+                                const double x = val1;
+                                const double y = static_cast<double>(rhs.cast<uint64_storage>().value());
+                                return x == y ? 0 : (x < y ? -1 : 1);
                             }
                             case json_storage_kind::float64:
                             {
-                                auto r = val1 - rhs.cast<double_storage>().value();
-                                return r == 0 ? 0 : (r < 0.0 ? -1 : 1);
+                                const double x = val1;
+                                const double y = rhs.cast<double_storage>().value();
+                                return x == y ? 0 : (x < y ? -1 : 1);
                             }
                             case json_storage_kind::const_json_ref:
                                 return compare(rhs.cast<const_json_ref_storage>().value());
